@@ -227,6 +227,9 @@ func hugeBits(surface string) uint {
 }
 
 func signature(j job, o outcome) string {
+	if lockset.FakeWatcherArtefact(o.Detail) || lockset.FakeWatcherArtefact(o.FDet) {
+		return "" // client-go's fake watcher ran out of buffer: inconclusive, never a violation (counted in the histogram)
+	}
 	switch {
 	case o.Class == "panic":
 		return "panic:" + j.surface + ":" + topFrame(o.Detail)
@@ -657,6 +660,9 @@ func run(e *hx.Env) *hx.Report {
 				cls := o.Class
 				if sig != "" && cls != "panic" && cls != "hang" && cls != "crash" {
 					cls = "followup-" + o.Follow
+				}
+				if lockset.FakeWatcherArtefact(o.Detail) || lockset.FakeWatcherArtefact(o.FDet) {
+					cls = "inconclusive:fake-watcher-channel-full"
 				}
 				r.Hit(j.surface + ":" + cls)
 				r.Hit("tag:" + strings.SplitN(j.tag, "+", 2)[0])
